@@ -934,11 +934,16 @@ def main(pid, tier):
         neq = p.macros(tdir)["NEQUATIONS"]
         try:
             fields = class_fields(p, tdir)
-            check_level_induction(chk, p, tdir, neq, fields)
-            check_solve(chk, p, tdir, neq, fields)
-            validate_traces(chk, p, tdir, 40 if tier == "quick" else 400)
         except Inconclusive as e:
             chk.unknown(f"{tdir}:encode", e)
+            continue
+        # the three analyses are independent: a code shape one of them cannot encode must not hide the others
+        for nm, step in (("level-induction", lambda: check_level_induction(chk, p, tdir, neq, fields)), ("solve", lambda: check_solve(chk, p, tdir, neq, fields)),
+                         ("native-traces", lambda: validate_traces(chk, p, tdir, 40 if tier == "quick" else 400))):
+            try:
+                step()
+            except Inconclusive as e:
+                chk.unknown(f"{tdir}:{nm}:encode", e)
     try:
         check_odeint(chk, p, "odeint_rosenbrock4", p.macros("odeint_rosenbrock4")["NEQUATIONS"])
     except Inconclusive as e:
